@@ -30,7 +30,7 @@ def get_concurrence_2qubit(rho:np.ndarray):
     EVL,EVC = np.linalg.eigh(rho)
     sqrt_rho = (EVC * np.sqrt(np.maximum(0,EVL))) @ EVC.T.conj()
     EVL = np.sqrt(np.maximum(0, np.linalg.eigvalsh(sqrt_rho @ z0 @ sqrt_rho)))
-    ret = np.maximum(2*EVL[-1]-EVL.sum(), 0)
+    ret = np.minimum(np.maximum(2*EVL[-1]-EVL.sum(), 0), 1) #concurrence is in [0,1], rounding error could exceed 1 for maximally entangled state
     return ret
 
 
